@@ -1,8 +1,193 @@
-/- Driver for C12 (stub). -/
+/- Driver for C12: line = "(cmds script)<TAB>(events final)"; see harness/props/c12.
+
+   Monitor style. The implementation's observation is the linearisation the
+   harness recorded (send calls, ProcessResponse calls, callbacks). The driver
+   replays it on `CmdQueue.step`: sends and response arrivals are applied where
+   they were observed; the model's INTERNAL steps (a caller receiving its
+   response, a caller timing out, commit completing) are not observable, so they
+   are placed using the outcome the implementation finally reported — and the
+   replay REJECTs when no placement exists (a reply reported that the model never
+   delivers to that caller, a reply that reached a pending caller but another one
+   is reported, a second callback, a result that is not the model's `commit`, …).
+   Spec.C12 is evaluated on the same observation, independently of the replay. -/
 import ControlModel.Basic
+import ControlModel.Model.CmdQueue
+import ControlModel.Spec.C12
 
 namespace Driver.C12
+open CmdQueue
 
-def processLine (_line : String) : String := "UNIMPLEMENTED\t0\t-"
+def parseCmds (x : SExp) : Option (List Cmd) := do
+  let cs ← x.list?
+  let rec go (i : Nat) : List SExp → Option (List Cmd)
+    | [] => some []
+    | .list (_q :: _tmo :: ts) :: rest => do
+        let tg ← ts.mapM? fun
+          | .list [t, _] => t.nat?
+          | _ => none
+        let more ← go (i + 1) rest
+        pure (⟨100 + i, tg⟩ :: more)
+    | _ => none
+  go 0 cs
+
+def parseEntry : SExp → Option TResp
+  | .list [.atom "own", id, sender, tag, err] => do
+      pure (.own ⟨← id.nat?, ← sender.nat?, ← tag.nat?, ← err.bool?⟩)
+  | .list [.atom "synth", id, .atom "send"] => do pure (.synth (← id.nat?) .send)
+  | .list [.atom "synth", id, .atom "timeout"] => do pure (.synth (← id.nat?) .timeout)
+  | _ => none
+
+/-- A result plus, for a multi-response, the keys of `Errors()`. -/
+def parseResult : SExp → Option (Result × List Nat)
+  | .atom "nil" => some (.nil, [])
+  | .list [.atom "single", e] => do pure (.single (← parseEntry e), [])
+  | .list [.atom "multi", id, .list ents, .list (.atom "errs" :: errs)] => do
+      let m ← ents.mapM? fun
+        | .list [t, e] => do pure ((← t.nat?), (← parseEntry e))
+        | _ => none
+      pure (.multi (← id.nat?) m, ← errs.mapM? SExp.nat?)
+  | _ => none
+
+def parseEvent : SExp → Option (Ev × List Nat)
+  | .list [.atom "S", c, t, ok] => do pure (.send (← c.nat?) (← t.nat?) (← ok.bool?), [])
+  | .list [.atom "R", id, t, tag, err] => do
+      pure (.resp ⟨← id.nat?, ← t.nat?, ← tag.nat?, ← err.bool?⟩, [])
+  | .list [.atom "D", c, res] => do
+      let (r, errs) ← parseResult res
+      pure (.done (← c.nat?) r, errs)
+  | _ => none
+
+def parseFinal : SExp → Option (Nat × Result)
+  | .list [c, res] => do pure ((← c.nat?), (← parseResult res).1)
+  | _ => none
+
+/-! canonical form: a Go map has no order -/
+
+def insertSorted (e : Nat × TResp) : List (Nat × TResp) → List (Nat × TResp)
+  | [] => [e]
+  | x :: xs => if e.1 ≤ x.1 then e :: x :: xs else x :: insertSorted e xs
+
+def canon : Result → Result
+  | .multi id m => .multi id (m.foldr insertSorted [])
+  | r => r
+
+def insertNat (e : Nat) : List Nat → List Nat
+  | [] => [e]
+  | x :: xs => if e ≤ x then e :: x :: xs else x :: insertNat e xs
+
+def sortNat (l : List Nat) : List Nat := l.foldr insertNat []
+
+def showEntry : TResp → String
+  | .own r => s!"own[{r.id},{r.sender},tag{r.tag}]"
+  | .synth id .send => s!"sendErr[{id}]"
+  | .synth id .timeout => s!"timeout[{id}]"
+
+def showResult : Result → String
+  | .nil => "nil"
+  | .single e => s!"single:{showEntry e}"
+  | .multi id m => s!"multi[{id}]:" ++ ",".intercalate (m.map fun (t, e) => s!"{t}={showEntry e}")
+
+def posOf (l : List Nat) (t : Nat) : Option Nat := l.findIdx? (· == t)
+
+/-- What the implementation finally reported for caller `i` (first callback of its command). -/
+def want (cmds : List Cmd) (evs : List Ev) (i : Ref) : Option TResp := do
+  let cmd ← cmds[i.1]?
+  let t ← cmd.targets[i.2]?
+  let res ← evs.findSome? fun
+    | .done c r => if c == i.1 then some r else none
+    | _ => none
+  entryOf cmd res t
+
+def onSend (cmds : List Cmd) (s : State) (c t : Nat) (ok : Bool) : Except String State := do
+  let some cmd := cmds[c]? | throw s!"send for unknown command {c}"
+  let some p := posOf cmd.targets t | throw s!"send of command {c} to {t}, which is not one of its targets"
+  if (s.call (c, p)).pc ≠ .idle then throw s!"second send of command {c} to target {t}"
+  let s := step cmds s (.start c)
+  let s := step cmds s (.register (c, p))
+  pure (step cmds s (if ok then .sendOk (c, p) else .sendFail (c, p)))
+
+def onResp (cmds : List Cmd) (evs : List Ev) (s : State) (r : Resp) : Except String State :=
+  match s.pending r.key with
+  | none => pure s
+  | some i =>
+    match want cmds evs i with
+    | some (.own r') =>
+      if r' = r then pure (step cmds (step cmds s (.deliver r)) (.recv i))
+      else throw s!"reply tag{r.tag} reaches the pending call ({r.id},{r.sender}) but the implementation reports {showEntry (.own r')} for it"
+    | some (.synth _ .timeout) => pure (step cmds (step cmds s (.timeout i)) (.deliver r))
+    | some (.synth _ .send) => throw s!"call ({r.id},{r.sender}) was sent but the implementation reports a send error"
+    | none => pure (step cmds s (.deliver r))
+
+def settleCallers (cmds : List Cmd) (evs : List Ev) (c : Nat) : List Nat → State → Except String State
+  | [], s => pure s
+  | p :: ps, s =>
+    match (s.call (c, p)).pc with
+    | .finished _ => settleCallers cmds evs c ps s
+    | .waiting =>
+      match want cmds evs (c, p) with
+      | some (.synth _ .timeout) => settleCallers cmds evs c ps (step cmds s (.timeout (c, p)))
+      | some e => throw s!"implementation reports {showEntry e} for caller ({c},{p}) which per the model is still waiting and can only time out"
+      | none => throw s!"no entry reported for caller ({c},{p})"
+    | _ => throw s!"callback of command {c} before the send to its target #{p}"
+
+def onDone (cmds : List Cmd) (evs : List Ev) (s : State) (c : Nat) (res : Result) (errs : List Nat) :
+    Except String State := do
+  let some cmd := cmds[c]? | throw s!"callback for unknown command {c}"
+  -- a command without targets is dequeued without any send
+  let s := if cmd.targets.isEmpty then step cmds s (.start c) else s
+  let s ← settleCallers cmds evs c (List.range cmd.targets.length) s
+  let before := s.callbacks.length
+  let s := step cmds s (.complete c)
+  if s.callbacks.length = before then
+    throw s!"callback for command {c}, which the model has already answered or never started (exactly-once broken)"
+  match s.callbacks.getLast? with
+  | some (_, mres) =>
+    if canon mres ≠ canon res then
+      throw s!"result of command {c}: implementation {showResult (canon res)}, model {showResult (canon mres)}"
+    if sortNat (errTargets mres) ≠ sortNat errs then
+      throw s!"Errors() of command {c}: implementation {sortNat errs}, model {sortNat (errTargets mres)}"
+    pure s
+  | none => throw "no callback"
+
+def monitor (cmds : List Cmd) (all : List (Ev × List Nat)) (final : List (Nat × Result)) : Except String Unit := do
+  let evs := all.map (·.1)
+  let mut s := init
+  for (e, errs) in all do
+    match e with
+    | .send c t ok => s ← onSend cmds s c t ok
+    | .resp r => s ← onResp cmds evs s r
+    | .done c res => s ← onDone cmds evs s c res errs
+  for c in List.range cmds.length do
+    if s.completed c = false then throw s!"command {c} never completed"
+  if final.length ≠ s.callbacks.length then
+    throw s!"{final.length} results read at the end, model delivered {s.callbacks.length}"
+  for (c, res) in final do
+    match s.callbacks.find? (·.1 == c) with
+    | some (_, mres) =>
+      if canon mres ≠ canon res then
+        throw s!"result of command {c} read at the end: {showResult (canon res)}, delivered {showResult (canon mres)}"
+    | none => throw s!"result for command {c} which the model never answered"
+
+def processLine (line : String) : String :=
+  match SExp.fields line with
+  | [inp, impl] =>
+    match SExp.parse inp with
+    | some (.list [cs, _script]) =>
+      match parseCmds cs with
+      | some cmds =>
+        match SExp.parse impl with
+        | some (.list [.list evs, .list fin]) =>
+          match evs.mapM? parseEvent, fin.mapM? parseFinal with
+          | some all, some final =>
+            let model := match monitor cmds all final with
+              | .ok _ => "ACCEPT"
+              | .error e => "REJECT:" ++ e
+            let spec := Spec cmds (all.map (·.1)) final
+            s!"{model}\t{if spec then 1 else 0}\t-"
+          | _, _ => "REJECT:observation holds something that is neither a scripted reply nor a synthesised error\t0\t-"
+        | _ => "REJECT:unparseable observation\t0\t-"
+      | none => "BADINPUT\t0\t-"
+    | _ => "BADINPUT\t0\t-"
+  | _ => "BADLINE\t0\t-"
 
 end Driver.C12
